@@ -34,13 +34,22 @@ Truthy(v) == ~(IsV(v, "bool") /\ ~v.bool)
 
 R(v, fx, k) == [v |-> v, fx |-> fx, k |-> k]
 
-\* environment: sequence of <<name, value>>, innermost last
-RECURSIVE EnvLookup(_, _, _)
-EnvLookup(env, name, i) ==
+\* Environments.  The bindings of the program-level let* form the GLOBAL environment, a sequence of
+\* <<name, value>> kept in the evaluation context (cx.g); an environment value is
+\*   [gn |-> number of global bindings visible, l |-> local bindings (innermost last)]
+\* A closure captures (gn, l) only.  (Capturing the global sequence by value would nest every
+\* closure's environment inside the next one: 2^n growth of the value TLC has to traverse.)
+RECURSIVE SeqLookup(_, _, _)
+SeqLookup(sq, name, i) ==
   IF i = 0 THEN [found |-> FALSE]
-  ELSE IF env[i][1] = name THEN [found |-> TRUE, v |-> env[i][2]]
-  ELSE EnvLookup(env, name, i - 1)
-Bind(env, name, v) == Append(env, <<name, v>>)
+  ELSE IF sq[i][1] = name THEN [found |-> TRUE, v |-> sq[i][2]]
+  ELSE SeqLookup(sq, name, i - 1)
+EnvLookup(env, cx, name) ==
+  LET a == SeqLookup(env.l, name, Len(env.l)) IN
+  IF a.found THEN a ELSE SeqLookup(cx.g, name, env.gn)
+EnvEmpty == [gn |-> 0, l |-> <<>>]
+BindLocal(env, name, v) == [env EXCEPT !.l = Append(env.l, <<name, v>>)]
+AtTopLevel(env, cx) == env.l = <<>> /\ env.gn = Len(cx.g)
 
 \* ---- names ----
 N(s) == Cp(s)
@@ -266,7 +275,7 @@ PrimApply(name, args, cx, k) ==
 Apply(fv, args, cx, k) ==
   IF IsV(fv, "clo") THEN
      IF Len(fv.clo.ps) # Len(args) THEN R(VErr("wrong number of arguments to procedure"), <<>>, k)
-     ELSE LET env2 == fv.clo.env \o [i \in 1..Len(args) |-> <<fv.clo.ps[i], args[i]>>]
+     ELSE LET env2 == [gn |-> fv.clo.gn, l |-> fv.clo.l \o [i \in 1..Len(args) |-> <<fv.clo.ps[i], args[i]>>]]
           IN EvalSeq(fv.clo.body, 1, env2, cx, k)
   ELSE IF IsV(fv, "printer") THEN
      \* ASSUMPTION: (printer s) = lock m; write s; [write terminator]; unlock m; returns true
@@ -313,13 +322,16 @@ EvalSeq(ds, i, env, cx, k) ==
        ELSE LET r2 == EvalSeq(ds, i + 1, env, cx, r.k) IN R(r2.v, r.fx \o r2.fx, r2.k)
 
 EvalLetStar(bs, i, env, cx, k) ==
-  \* returns [env, fx, k, bad, v]
-  IF i > Len(bs) THEN [env |-> env, fx |-> <<>>, k |-> k, bad |-> FALSE]
+  \* returns [env, cx, fx, k, bad, v]; at program level the bindings extend the global environment
+  IF i > Len(bs) THEN [env |-> env, cx |-> cx, fx |-> <<>>, k |-> k, bad |-> FALSE]
   ELSE LET b == bs[i] IN
        IF ~(IsList(b) /\ Len(b.list) = 2 /\ IsSym(b.list[1])) THEN [bad |-> TRUE, v |-> VErr("bad let* binding"), fx |-> <<>>, k |-> k]
        ELSE LET r == Eval(b.list[2], env, cx, k) IN
             IF IsBad(r.v) THEN [bad |-> TRUE, v |-> r.v, fx |-> r.fx, k |-> r.k]
-            ELSE LET rest == EvalLetStar(bs, i + 1, Bind(env, b.list[1].sym, r.v), cx, r.k)
+            ELSE LET top == AtTopLevel(env, cx)
+                     env2 == IF top THEN [env EXCEPT !.gn = env.gn + 1] ELSE BindLocal(env, b.list[1].sym, r.v)
+                     cx2 == IF top THEN [cx EXCEPT !.g = Append(cx.g, <<b.list[1].sym, r.v>>)] ELSE cx
+                     rest == EvalLetStar(bs, i + 1, env2, cx2, r.k)
                  IN [rest EXCEPT !.fx = r.fx \o rest.fx]
 
 EvalAnd(ds, i, env, cx, k, last) ==
@@ -337,14 +349,14 @@ EvalOr(ds, i, env, cx, k) ==
 Eval(d, env, cx, k) ==
   IF IsNum(d) \/ IsStr(d) \/ IsChr(d) \/ IsBool(d) THEN R(d, <<>>, k)
   ELSE IF IsSym(d) THEN
-     LET b == EnvLookup(env, d.sym, Len(env)) IN
+     LET b == EnvLookup(env, cx, d.sym) IN
      IF b.found THEN R(b.v, <<>>, k)
      ELSE IF d.sym \in KnownPrims \/ d.sym \in {nCallName, nCallRel} THEN R([prim |-> d.sym], <<>>, k)
      ELSE R(VUnmod(d.sym), <<>>, k)
   ELSE IF d.list = <<>> THEN R(VErr("empty application"), <<>>, k)
   ELSE LET h == d.list[1]
            n == Len(d.list)
-           special == IsSym(h) /\ h.sym \in SpecialForms /\ ~EnvLookup(env, h.sym, Len(env)).found
+           special == IsSym(h) /\ h.sym \in SpecialForms /\ ~EnvLookup(env, cx, h.sym).found
        IN
   IF special /\ h.sym = nQuote THEN
      (IF n = 2 /\ (IsSym(d.list[2]) \/ IsNum(d.list[2]) \/ IsStr(d.list[2])) THEN R(d.list[2], <<>>, k) ELSE R(VUnmod(N("quote of a list")), <<>>, k))
@@ -369,20 +381,20 @@ Eval(d, env, cx, k) ==
   ELSE IF special /\ h.sym = nLambda THEN
      IF n < 3 \/ ~IsList(d.list[2]) \/ \E i \in 1..Len(d.list[2].list) : ~IsSym(d.list[2].list[i])
      THEN R(VUnmod(N("lambda with a non-list formals")), <<>>, k)
-     ELSE R([clo |-> [ps |-> [i \in 1..Len(d.list[2].list) |-> d.list[2].list[i].sym], body |-> SubSeq(d.list, 3, n), env |-> env]], <<>>, k)
+     ELSE R([clo |-> [ps |-> [i \in 1..Len(d.list[2].list) |-> d.list[2].list[i].sym], body |-> SubSeq(d.list, 3, n), gn |-> env.gn, l |-> env.l]], <<>>, k)
   ELSE IF special /\ h.sym \in {nLetStar, nLet} THEN
      IF n < 3 \/ ~IsList(d.list[2]) THEN R(VUnmod(N("named let")), <<>>, k)
      ELSE IF h.sym = nLetStar THEN
         LET b == EvalLetStar(d.list[2].list, 1, env, cx, k) IN
         IF b.bad THEN R(b.v, b.fx, b.k)
-        ELSE LET r == EvalSeq(SubSeq(d.list, 3, n), 1, b.env, cx, b.k) IN R(r.v, b.fx \o r.fx, r.k)
+        ELSE LET r == EvalSeq(SubSeq(d.list, 3, n), 1, b.env, b.cx, b.k) IN R(r.v, b.fx \o r.fx, r.k)
      ELSE
         \* let: all initialisers in the outer environment
         LET bs == d.list[2].list IN
         IF \E i \in 1..Len(bs) : ~(IsList(bs[i]) /\ Len(bs[i].list) = 2 /\ IsSym(bs[i].list[1])) THEN R(VErr("bad let binding"), <<>>, k)
         ELSE LET a == EvalArgs([i \in 1..Len(bs) |-> bs[i].list[2]], 1, env, cx, k, [vs |-> <<>>, fx |-> <<>>]) IN
              IF a.bad THEN R(a.v, a.fx, a.k)
-             ELSE LET env2 == env \o [i \in 1..Len(bs) |-> <<bs[i].list[1].sym, a.vs[i]>>]
+             ELSE LET env2 == [env EXCEPT !.l = env.l \o [i \in 1..Len(bs) |-> <<bs[i].list[1].sym, a.vs[i]>>]]
                       r == EvalSeq(SubSeq(d.list, 3, n), 1, env2, cx, a.k)
                   IN R(r.v, a.fx \o r.fx, r.k)
   ELSE IF special /\ h.sym = nWithMutex THEN
@@ -413,24 +425,30 @@ NoFile == [name |-> <<>>, relpath |-> <<>>, abspath |-> <<>>, mount |-> <<>>, us
            stripesize |-> BZero, mirrors |-> BZero, pools |-> <<>>, xattrs |-> <<>>, readable |-> FALSE, writable |-> FALSE,
            executable |-> FALSE, empty |-> FALSE]
 
+\* the part of Prepare that follows reading: data = the two top-level forms
+PrepareData(data) ==
+  IF Len(data) # 2 THEN [ok |-> FALSE, why |-> "expected exactly two top-level forms", forms |-> Len(data)]
+  ELSE IF ~HeadIs(data[1], nUseModules) \/ ~HeadIs(data[2], nLetStar)
+       THEN [ok |-> FALSE, why |-> "top-level forms are not (use-modules ...) (let* ...)", forms |-> 2]
+  ELSE LET cx0 == [file |-> NoFile, g |-> <<>>]
+           r == Eval(data[2], EnvEmpty, cx0, 0)
+           scans == SelectSeq(r.fx, LAMBDA e : e.e = "scan")
+           \* the bindings alone: the global environment in which the policy runs, also used for
+           \* classifying the resources the bindings create
+           bs == IF Len(data[2].list) >= 2 /\ IsList(data[2].list[2]) THEN data[2].list[2].list ELSE <<>>
+           b == EvalLetStar(bs, 1, EnvEmpty, cx0, 0)
+       IN [ok |-> TRUE, data |-> data, v |-> r.v, fx |-> r.fx, scans |-> scans, forms |-> 2,
+           env |-> IF b.bad THEN <<>> ELSE b.cx.g]
+
 Prepare(text) ==
   LET rd == ReadAll(text) IN
   IF ~rd.ok THEN [ok |-> FALSE, why |-> "read error: " \o rd.why, forms |-> 0]
-  ELSE IF Len(rd.data) # 2 THEN [ok |-> FALSE, why |-> "expected exactly two top-level forms", forms |-> Len(rd.data)]
-  ELSE IF ~HeadIs(rd.data[1], nUseModules) \/ ~HeadIs(rd.data[2], nLetStar)
-       THEN [ok |-> FALSE, why |-> "top-level forms are not (use-modules ...) (let* ...)", forms |-> 2]
-  ELSE LET r == Eval(rd.data[2], <<>>, [file |-> NoFile], 0)
-           scans == SelectSeq(r.fx, LAMBDA e : e.e = "scan")
-           \* the bindings alone (for classifying the resources they create)
-           bs == IF Len(rd.data[2].list) >= 2 /\ IsList(rd.data[2].list[2]) THEN rd.data[2].list[2].list ELSE <<>>
-           b == EvalLetStar(bs, 1, <<>>, [file |-> NoFile], 0)
-       IN [ok |-> TRUE, data |-> rd.data, v |-> r.v, fx |-> r.fx, scans |-> scans, forms |-> 2,
-           env |-> IF b.bad THEN <<>> ELSE b.env]
+  ELSE PrepareData(rd.data)
 
 \* one policy call on one file: [v, fx]
 RunPolicy(prep, file) ==
   LET sc == prep.scans[1]
-      r == Apply(sc.policy, <<>>, [file |-> file], 1000)
+      r == Apply(sc.policy, <<>>, [file |-> file, g |-> prep.env], 1000)
   IN [v |-> r.v, fx |-> r.fx]
 
 \* effects outside the scan (before: opening files; after: closing ports)
